@@ -2,6 +2,7 @@
    CASE P ; <position> | <live> <sorted legal move set>   model: GameOver.game_over, GameOver.all_moves filtered by Inst.mv_fixed
    CASE M ; <position> ; <move> | OK|ERR|PANIC            every move a player returned, judged by Inst.mv_fixed
    SPEC column: a live position whose model move set is empty would contradict theorem C04_live_has_legal_move. *)
+(* verif:needs c04m *)
 open Common
 let is_ok p m = match Inst.mv_fixed p m with Move.Ok _ -> true | _ -> false
 let run (_args : string list) =
@@ -19,4 +20,5 @@ let run (_args : string list) =
       let p = parse_pos pos in
       let m = parse_move mv in
       ((match Inst.mv_fixed p m with Move.Ok _ -> "OK" | Move.Err -> "ERR" | Move.Panic -> "PANIC"), None, None)
+    | "MCTS" :: rest -> Drv_c04m.handle rest
     | _ -> failwith "c04 input")
